@@ -625,3 +625,152 @@ pub fn replay_c20(ctx: &Ctx, case: &serde_json::Value) -> Result<(), String>
     }
     crate::verif::props::audits::replay_c20(ctx, case)
 }
+
+// ---------------------------------------------------------------------------------------------------------------------
+// Real-file-system slice of C18 (and C01): a rule whose declared source is a DIRECTORY.  Only the real System gives a
+// directory a modification time, and that time does not move when a file inside is rewritten in place.  The same history
+// runs in two scratch directories in lockstep — as is, and with the saved file-state table deleted before every build.
+
+#[derive(Clone, Debug, Serialize, Deserialize, PartialEq)]
+pub enum DirOp
+{
+    /// rewrite dirsrc/a or dirsrc/b (or dirsrc/sub/c) in place: the directory's own mtime stays
+    EditInside { which: u8, content: u8 },
+    EditPlain { content: u8 },
+    /// create / remove an extra entry: the directory's mtime moves, what the command reads does not change
+    AddEntry,
+    RemoveEntry,
+    Build,
+    Clean,
+    DeleteTarget { which: u8 },
+}
+
+#[derive(Clone, Debug, Serialize, Deserialize, PartialEq)]
+pub struct RealDirCase
+{
+    pub ops: Vec<DirOp>,
+}
+
+pub fn dir_strategy(max_ops: usize) -> impl Strategy<Value = RealDirCase>
+{
+    let op = prop_oneof![
+        5 => (0u8..3, 0u8..gen::N_CONTENTS).prop_map(|(which, content)| DirOp::EditInside { which, content }),
+        2 => (0u8..gen::N_CONTENTS).prop_map(|content| DirOp::EditPlain { content }),
+        1 => Just(DirOp::AddEntry),
+        1 => Just(DirOp::RemoveEntry),
+        6 => Just(DirOp::Build),
+        1 => Just(DirOp::Clean),
+        1 => (0u8..2).prop_map(|which| DirOp::DeleteTarget { which }),
+    ];
+    proptest::collection::vec(op, 1..=max_ops).prop_map(|ops| RealDirCase { ops })
+}
+
+const DIR_RULES: &str = "t1\n:\ndirsrc\n:\ncat dirsrc/a dirsrc/b dirsrc/sub/c > t1\n:\n\nt2\n:\np\nt1\n:\ncat t1 p > t2\n:\n";
+
+fn dir_world() -> Result<RealWorld, String>
+{
+    // a RealWorld only for its scratch directory and its way of running the binary; the rules file is written by hand
+    let g = GraphSpec { n_leaves: 1, leaf_contents: vec![0], rules: vec![], name_seed: 0, dirs: false, two_files: false, bundle: false, render_seed: 0, odd_names: false };
+    let w = RealWorld::new(&g)?;
+    std::fs::create_dir_all(w.path("dirsrc/sub")).map_err(|e| format!("{}", e))?;
+    w.write("dirsrc/a", b"a0")?;
+    w.write("dirsrc/b", b"b0")?;
+    w.write("dirsrc/sub/c", b"c0")?;
+    w.write("p", b"p0")?;
+    w.write("build.rules", DIR_RULES.as_bytes())?;
+    Ok(w)
+}
+
+pub fn dir_real(c: &RealDirCase, stats: &mut Stats) -> Result<(), String>
+{
+    let a = dir_world()?;
+    let b = dir_world()?;
+    let mut builds = 0;
+    let mut inplace_since_build = false;
+    let mut built_once = false;
+    let mut interesting = false;
+    for op in c.ops.iter().chain(std::iter::once(&DirOp::Build))
+    {
+        match op
+        {
+            DirOp::EditInside { which, content } =>
+            {
+                let p = ["dirsrc/a", "dirsrc/b", "dirsrc/sub/c"][*which as usize % 3];
+                let mut data = gen::content(*content);
+                data.extend_from_slice(p.as_bytes());
+                for w in [&a, &b] { w.write(p, &data)?; }
+                if built_once { inplace_since_build = true; }
+            }
+            DirOp::EditPlain { content } => { for w in [&a, &b] { w.write("p", &gen::content(*content))?; } }
+            DirOp::AddEntry => { for w in [&a, &b] { w.write("dirsrc/extra", b"x")?; } }
+            DirOp::RemoveEntry => { for w in [&a, &b] { w.remove("dirsrc/extra"); } }
+            DirOp::DeleteTarget { which } => { for w in [&a, &b] { w.remove(["t1", "t2"][*which as usize % 2]); } }
+            DirOp::Clean =>
+            {
+                for w in [&a, &b]
+                {
+                    let out = w.clean(None)?;
+                    if !out.reported_success() { return Err(format!("real fs: clean failed: {}", out.stderr.trim())); }
+                }
+            }
+            DirOp::Build =>
+            {
+                b.remove(".ruler/current_file_states");
+                let oa = a.build(None)?;
+                let ob = b.build(None)?;
+                builds += 1;
+                if oa.reported_success() != ob.reported_success()
+                {
+                    return Err(format!("real fs, directory source, build #{}: verdict depends on the file-state table: with table {:?}, without {:?}", builds, oa.stderr.trim(), ob.stderr.trim()));
+                }
+                if !oa.reported_success()
+                {
+                    return Err(format!("real fs, directory source, build #{}: every command succeeds, but the build failed: {}", builds, oa.stderr.trim()));
+                }
+                let mut want1 = vec![];
+                for p in ["dirsrc/a", "dirsrc/b", "dirsrc/sub/c"] { want1.extend(a.read(p).unwrap_or_default()); }
+                let mut want2 = want1.clone();
+                want2.extend(a.read("p").unwrap_or_default());
+                for (t, want) in [("t1", &want1), ("t2", &want2)]
+                {
+                    let (ga, gb) = (a.read(t), b.read(t));
+                    if ga != gb
+                    {
+                        return Err(format!("real fs, directory source, build #{}: {} depends on the file-state table: with table {} bytes, without {} bytes", builds, t,
+                            ga.map(|x| x.len() as i64).unwrap_or(-1), gb.map(|x| x.len() as i64).unwrap_or(-1)));
+                    }
+                    if ga.as_ref() != Some(want)
+                    {
+                        return Err(format!("real fs, directory source, build #{}: build reported success but {} is not what its command produces from the current files", builds, t));
+                    }
+                }
+                if inplace_since_build { interesting = true; }
+                inplace_since_build = false;
+                built_once = true;
+            }
+        }
+    }
+    stats.count("realfs_dir_source_scenarios", 1);
+    stats.count("realfs_dir_source_builds", builds);
+    if interesting { stats.class("real-file-inside-source-directory-rewritten-in-place-between-builds"); stats.nontrivial(drive::key_of(c) ^ 0xD18); }
+    Ok(())
+}
+
+pub fn run_c18(ctx: &Ctx) -> drive::Report
+{
+    let mut rep = crate::verif::props::c18::run(ctx);
+    let mut real = drive::drive_opts(ctx, 118, ctx.tier.pick(24, 300), 16, || dir_strategy(10), dir_real);
+    for f in real.1.iter_mut() { f.case = serde_json::json!({ "real_fs_dir": f.case }); }
+    rep.absorb(real);
+    rep
+}
+
+pub fn replay_c18(ctx: &Ctx, case: &serde_json::Value) -> Result<(), String>
+{
+    if let Some(inner) = case.get("real_fs_dir")
+    {
+        let c: RealDirCase = drive::parse_case(inner)?;
+        return dir_real(&c, &mut Stats::default());
+    }
+    crate::verif::props::c18::replay(ctx, case)
+}
